@@ -483,6 +483,12 @@ func updateOrModifyModel(dbModel model.DatabaseModel, table string, info *mapper
 			// ignore columns we don't know about in our schema
 			continue
 		}
+		if _, ok := info.Metadata.Fields[column]; !ok && isModify {
+			// a modification received from the server: ignore columns the
+			// model does not map, a model may cover a subset of the columns
+			// of its table
+			continue
+		}
 
 		currentNative, err := info.FieldByColumn(column)
 		if err != nil {
